@@ -50,6 +50,8 @@ def model_case(draw, classes, containers=("da", "ds", "list"), full_modes=False,
             if M.is_rotator(cls):
                 # rotating a numerically null mode (beyond the rank of the centred data) is ill-defined
                 rank = max(lo, min(rank, n - 1 if spec["center"] else n))
+                if M.is_hilbert_cls(cls):  # the centred analytic signal of n samples has rank <= n//2
+                    rank = max(lo, min(rank, n // 2 - 1))
             spec["n_modes"] = rank if full_modes else draw(st.integers(lo, max(lo, rank)))
     else:
         al = list(M.cross_alpha({"cls": cls, "alpha": [draw(M.alphas), draw(M.alphas)]}))
@@ -87,6 +89,8 @@ def model_case(draw, classes, containers=("da", "ds", "list"), full_modes=False,
         spec.update(alpha=al, use_pca=use_pca, n_pca_modes=npm, irr=1.0)
         if M.is_rotator(cls):
             rank = max(lo, min(rank, n - 1))
+            if hil:
+                rank = max(lo, min(rank, n // 2 - 1))
         spec["n_modes"] = rank if full_modes else draw(st.integers(lo, max(lo, rank)))
         spec["_pp"] = pp
     if M.is_rotator(cls):
